@@ -193,8 +193,8 @@ def lake(targets, timeout=3000):
     return r.returncode == 0, r.stdout
 
 
-def driver_path():
-    return os.path.join(LEAN, ".lake", "build", "bin", "driver")
+def driver_path(component):
+    return os.path.join(LEAN, ".lake", "build", "bin", "driver-" + component)
 
 
 FORBIDDEN = re.compile(r"\b(sorry|admit|native_decide|bv_decide|implemented_by|unsafe)\b|^\s*axiom\s|maxHeartbeats\s+0\b")
